@@ -84,7 +84,9 @@ Context::~Context()
     delete _returned;
   _returned = nullptr;
 
-  if (_fctm->getRoot() == this)
+  /* only a root context owns its manager; a child context (function
+   * prototype or runtime) may outlive the manager it was created for */
+  if (_root == this && _fctm->getRoot() == this)
     delete _fctm;
   _fctm = nullptr;
 
